@@ -413,7 +413,24 @@ class P:
                         raise Untranslatable('macro')
                 return ('macro', path[-1])
             if self.at('{') and not nostruct and path[-1][0].isupper():
-                raise Untranslatable('struct literal')
+                self.take('{')
+                fields = []
+                base = None
+                while not self.at('}'):
+                    if self.at('..'):
+                        self.take()
+                        base = self.expr()
+                    else:
+                        fname = self.take()[1]
+                        if self.at(':'):
+                            self.take()
+                            fields.append((fname, self.expr()))
+                        else:
+                            fields.append((fname, ('path', [fname])))
+                    if self.at(','):
+                        self.take()
+                self.take('}')
+                return ('struct', path, fields, base)
             return ('path', path)
         raise Untranslatable('expression: unexpected %r' % (v,))
 
@@ -442,6 +459,7 @@ def lit(text):
 LOGGING = {'debug', 'trace', 'info', 'warn', 'error'}
 
 T_MAT = ('st', 'Transform2')
+INLINE_PT = [False]
 T_P = ('P',)           # the model's `Pt` structure (what nalgebra `Point2` is in Mat3.position / setPosition)
 
 
@@ -455,6 +473,8 @@ def as_P(t, ty):
     """a point-like term as the model's `Pt`"""
     if ty == T_P:
         return t
+    if INLINE_PT[0]:
+        return '(⟨%s, %s⟩ : Pt α)' % (comp(t, 1), comp(t, 2))
     return '(mkPt %s)' % t
 
 
@@ -557,6 +577,37 @@ class Emitter:
             return self.match(e[1], e[2])
         if k == 'block':
             return self.blk(e)
+        if k == 'struct':
+            name = e[1][-1]
+            if e[3] is not None:
+                raise Untranslatable('struct update syntax')
+            fs = {}
+            for fname, fe in e[2]:
+                if fname in fs:
+                    raise Untranslatable('repeated field')
+                fs[fname] = self.ex(fe)
+
+            def pt(key):
+                t, ty = fs[key]
+                if ty == T_P:
+                    return '%s.x' % t, '%s.y' % t
+                if ty in (('pt',), ('vec',)):
+                    return comp(t, 1), comp(t, 2)
+                raise Untranslatable('field %s is not a point' % key)
+            if name == 'LJ2' and set(fs) == {'position', 'sigma', 'epsilon', 'cutoff'}:
+                x, y = pt('position')
+                return '({ x := %s, y := %s, sigma := %s, epsilon := %s, cutoff := %s } : LJ2 α)' % (
+                    x, y, fs['sigma'][0], fs['epsilon'][0], fs['cutoff'][0]), ('st', 'LJ2')
+            if name == 'Atom2' and set(fs) == {'position', 'radius'}:
+                x, y = pt('position')
+                return '({ x := %s, y := %s, r := %s } : Atom2 α)' % (x, y, fs['radius'][0]), ('st', 'Atom2')
+            if name == 'Line2' and set(fs) == {'start', 'end'}:
+                sx, sy = pt('start')
+                ex_, ey = pt('end')
+                return '({ sx := %s, sy := %s, ex := %s, ey := %s } : Line2 α)' % (sx, sy, ex_, ey), ('st', 'Line2')
+            if set(fs) == {'name', 'items'} and isinstance(fs['items'][1], tuple) and fs['items'][1][0] == 'list':
+                return fs['items']          # a shape is modelled by the list of its components
+            raise Untranslatable('struct literal %s {%s}' % (name, ', '.join(sorted(fs))))
         if k == 'iproduct':
             parts = [self.ex(a) for a in e[1]]
             if len(parts) != 2 or not all(isinstance(t, tuple) and t[0] == 'list' for _, t in parts):
@@ -809,6 +860,10 @@ class Emitter:
             if op in '+*/%':
                 return '(%s %s %s)' % (a, op, b), 'n'
             raise Untranslatable('unsigned ' + op)
+        if op == '*' and isinstance(ta, tuple) and ta[0] == 'st' and tb == T_MAT and (ta[1], 'mul_right') in self.methods:
+            return '(%s %s %s)' % (self.methods[(ta[1], 'mul_right')][0], a, b), ta
+        if op == '*' and isinstance(tb, tuple) and tb[0] == 'st' and ta == T_MAT and (tb[1], 'mul_left') in self.methods:
+            return '(%s %s %s)' % (self.methods[(tb[1], 'mul_left')][0], a, b), tb
         if ta == T_MAT and tb == T_MAT and op == '*':
             return '(Mat3.mul %s %s)' % (a, b), T_MAT
         if ta == T_MAT and tb in (T_P, ('pt',)) and op == '*':
@@ -1373,8 +1428,10 @@ ST_STATE = {'cell': ('{s}.cell', ('st', 'Cell')), 'shape': ('{s}.shape', ('st', 
             'occupied_sites': ('{s}.sites', ('list', ('st', 'Site')))}
 ST_CFG = {'kt_start': ('{s}.ktStart', 'f'), 'kt_ratio': ('{s}.ktRatio', 'f'), 'max_step_size': ('{s}.maxStep', 'f'),
           'steps': ('{s}.steps', 'n'), 'inner_steps': ('{s}.inner', 'n'), 'convergence': ('{s}.convergence', ('opt', 'f'))}
+UNIT = ('()', 'unit')
 STRUCTS = {'Cfg': ST_CFG, 'Site': ST_SITE, 'Wyckoff': {'symmetries': ('{s}.ops', L_MAT)}, 'State': ST_STATE,
-           'LineShape': {'items': ('{s}', L_LINE)}, 'MolShape': {'items': ('{s}', L_ATOM)}, 'LJShape': {'items': ('{s}', L_LJ)},
+           'LineShape': {'items': ('{s}', L_LINE), 'name': UNIT}, 'MolShape': {'items': ('{s}', L_ATOM), 'name': UNIT},
+           'LJShape': {'items': ('{s}', L_LJ), 'name': UNIT},
            'Atom2': ST_ATOM, 'LJ2': ST_LJ, 'Line2': ST_LINE, 'Cell': ST_CELL, 'Handle': ST_HANDLE, 'Builder': ST_BUILDER}
 
 
@@ -1460,8 +1517,31 @@ def gen_fns(repo):
           selfty='Line2', methods=lm, consts=consts)
     out[g.fname] = g.text('fnsLine')
 
+    # ---------------- the `Mul` impls of the component types with a placement (`*_ops.rs`, C12, C13)
+    g = Group('FnsOps.lean', ['Model.Shapes'], 'src/shape/components/{atom2,line2,lj2}_ops.rs')
+    INLINE_PT[0] = True
+    for comp_name, lname in (('Atom2', 'atom2'), ('Line2', 'line2'), ('LJ2', 'lj2')):
+        rel = 'src/shape/components/%s_ops.rs' % lname
+        src_ops = read(repo, rel)
+        impls = re.findall(r'binop_impl_all!\(\s*Mul\s*,\s*mul\s*;\s*self\s*:\s*(\w+)\s*,\s*rhs\s*:\s*(\w+)\s*,\s*Output\s*=\s*(\w+)\s*;\s*\[ref\s+ref\]\s*=>\s*\{', src_ops)
+        for (lhs, rhs, outty) in impls:
+            side = 'left' if lhs == 'Transform2' else 'right'
+            m = re.search(r'binop_impl_all!\(\s*Mul\s*,\s*mul\s*;\s*self\s*:\s*%s\s*,\s*rhs\s*:\s*%s\s*,[^;]*;\s*\[ref\s+ref\]\s*=>\s*\{' % (lhs, rhs), src_ops)
+            body = src_ops[m.end():match_brace(src_ops, m.end() - 1)]
+            fake = 'fn op_body(&self) -> X {' + body + '}'
+            tymap = {'Transform2': (T_MAT, 'Mat3 α'), comp_name: (('st', comp_name), '%s α' % comp_name)}
+            if lhs not in tymap or rhs not in tymap or outty != comp_name:
+                g.notes.append('%s: unexpected operand types %s * %s -> %s' % (rel, lhs, rhs, outty))
+                continue
+            g.add('%s_mul_%s' % (lname, side), '(self : %s) (rhs : %s)' % (tymap[lhs][1], tymap[rhs][1]), '%s α' % comp_name, rel,
+                  'op_body', fake, {'self': ('self', tymap[lhs][0]), 'rhs': ('rhs', tymap[rhs][0])})
+        if len(impls) != 2:
+            g.notes.append('%s: %d `Mul` impls found, expected 2' % (rel, len(impls)))
+    INLINE_PT[0] = False
+    out[g.fname] = g.text('fnsOps')
+
     # ---------------- shapes as lists of components (C12, C01, C02)
-    g = Group('FnsLineShape.lean', ['Model.Shapes', 'Generated.FnsLine'], 'src/shape/line_shape.rs')
+    g = Group('FnsLineShape.lean', ['Model.Shapes', 'Generated.FnsLine', 'Generated.FnsOps'], 'src/shape/line_shape.rs')
     ls = read(repo, 'src/shape/line_shape.rs')
     ls_int = impl_block(ls, r'impl\s+Intersect\s+for\s+LineShape\s*\{')
     ls_shape = impl_block(ls, r'impl\s+Shape\s+for\s+LineShape\s*\{')
@@ -1472,9 +1552,11 @@ def gen_fns(repo):
     g.add('lineshape_intersects', '(self other : List (Line2 α))', 'Bool', 'src/shape/line_shape.rs', 'intersects', ls_int, lsenv, methods=lsm)
     g.add('lineshape_area', '(self : List (Line2 α))', 'α', 'src/shape/line_shape.rs', 'area', ls_int, lsenv, methods=lsm)
     g.add('lineshape_enclosing_radius', '(self : List (Line2 α))', 'α', 'src/shape/line_shape.rs', 'enclosing_radius', ls_shape, lsenv, methods=lsm)
+    g.add('lineshape_transform', '(self : List (Line2 α)) (transform : Mat3 α)', 'List (Line2 α)', 'src/shape/line_shape.rs', 'transform', ls_shape,
+          dict(lsenv, transform=('transform', T_MAT)), methods={**lsm, ('Line2', 'mul_right'): ('line2_mul_right', ('st', 'Line2'))})
     out[g.fname] = g.text('fnsLineShape')
 
-    g = Group('FnsMolShape.lean', ['Model.Shapes', 'Generated.FnsDisc'], 'src/shape/molecular_shape2.rs')
+    g = Group('FnsMolShape.lean', ['Model.Shapes', 'Generated.FnsDisc', 'Generated.FnsOps'], 'src/shape/molecular_shape2.rs')
     ms_int = impl_block(mol, r'impl\s+Intersect\s+for\s+MolecularShape2\s*\{')
     ms_shape = impl_block(mol, r'impl\s+Shape\s+for\s+MolecularShape2\s*\{')
     msm = {('MolShape', 'iter'): (ident, L_ATOM), ('MolShape', 'into_iter'): (ident, L_ATOM),
@@ -1483,9 +1565,11 @@ def gen_fns(repo):
     g.add('molshape_intersects', '(self other : List (Atom2 α))', 'Bool', 'src/shape/molecular_shape2.rs', 'intersects', ms_int, msenv, methods=msm)
     g.add('molshape_area', '(self : List (Atom2 α))', 'α', 'src/shape/molecular_shape2.rs', 'area', ms_int, msenv, selfty='MolShape', methods=msm)
     g.add('molshape_enclosing_radius', '(self : List (Atom2 α))', 'α', 'src/shape/molecular_shape2.rs', 'enclosing_radius', ms_shape, msenv, methods=msm)
+    g.add('molshape_transform', '(self : List (Atom2 α)) (transform : Mat3 α)', 'List (Atom2 α)', 'src/shape/molecular_shape2.rs', 'transform', ms_shape,
+          dict(msenv, transform=('transform', T_MAT)), methods={**msm, ('Atom2', 'mul_right'): ('atom2_mul_right', ('st', 'Atom2'))})
     out[g.fname] = g.text('fnsMolShape')
 
-    g = Group('FnsLJShape.lean', ['Model.Shapes', 'Generated.FnsLJ'], 'src/shape/lj_shape.rs')
+    g = Group('FnsLJShape.lean', ['Model.Shapes', 'Generated.FnsLJ', 'Generated.FnsOps'], 'src/shape/lj_shape.rs')
     ljs = read(repo, 'src/shape/lj_shape.rs')
     lj_pot = impl_block(ljs, r'impl\s+Potential\s+for\s+LJShape2\s*\{')
     lj_shape = impl_block(ljs, r'impl\s+Shape\s+for\s+LJShape2\s*\{')
@@ -1493,6 +1577,8 @@ def gen_fns(repo):
     ljenv = {'self': ('self', ('st', 'LJShape')), 'other': ('other', ('st', 'LJShape'))}
     g.add('ljshape_energy', '(self other : List (LJ2 α))', 'α', 'src/shape/lj_shape.rs', 'energy', lj_pot, ljenv, methods=ljm)
     g.add('ljshape_enclosing_radius', '(self : List (LJ2 α))', 'α', 'src/shape/lj_shape.rs', 'enclosing_radius', lj_shape, ljenv, methods=ljm)
+    g.add('ljshape_transform', '(self : List (LJ2 α)) (transform : Mat3 α)', 'List (LJ2 α)', 'src/shape/lj_shape.rs', 'transform', lj_shape,
+          dict(ljenv, transform=('transform', T_MAT)), methods={**ljm, ('LJ2', 'mul_right'): ('lj2_mul_right', ('st', 'LJ2'))})
     out[g.fname] = g.text('fnsLJShape')
 
     # ---------------- lj2 (C13, C03)
@@ -1584,6 +1670,13 @@ def shape_enclosing_radius (s : Shape α) : α :=
   | .mol a => molshape_enclosing_radius a
   | .lj a => ljshape_enclosing_radius a
 
+/-- `S::transform` -/
+def shape_transform (s : Shape α) (t : Mat3 α) : Shape α :=
+  match s with
+  | .line a => .line (lineshape_transform a t)
+  | .mol a => .mol (molshape_transform a t)
+  | .lj a => .lj (ljshape_transform a t)
+
 /-- `S::energy` -/
 def shape_energy (s o : Shape α) : α :=
   match s, o with
@@ -1596,7 +1689,7 @@ def shape_energy (s o : Shape α) : α :=
     out[g.fname] = g.text('fnsShapeDispatch')
 
     # ---------------- states: overlap check and the two scores (C01, C02, C03)
-    shape_m = {('Shape', 'transform'): ('Shape.transform', ('st', 'Shape')), ('Shape', 'intersects'): ('shape_intersects', 'b'),
+    shape_m = {('Shape', 'transform'): ('shape_transform', ('st', 'Shape')), ('Shape', 'intersects'): ('shape_intersects', 'b'),
                ('Shape', 'energy'): ('shape_energy', 'f'), ('Shape', 'enclosing_radius'): ('shape_enclosing_radius', 'f'),
                ('Shape', 'area'): ('shape_area', 'f')}
     stenv = {'self': ('self', ('st', 'State'))}
@@ -1785,7 +1878,7 @@ def main():
         files = gen_fns(repo)
     except Exception as e:
         files = {}
-        for n in ('FnsShapeDispatch.lean', 'FnsLattice.lean', 'FnsSite.lean', 'FnsPacked.lean', 'FnsPotential.lean', 'FnsLineShape.lean', 'FnsMolShape.lean', 'FnsLJShape.lean', 'FnsDisc.lean', 'FnsLine.lean', 'FnsLJ.lean', 'FnsCell.lean', 'FnsWrap.lean', 'FnsAccept.lean', 'FnsBuild.lean', 'FnsLoopTail.lean', 'FnsInnerStep.lean', 'FnsBasis.lean'):
+        for n in ('FnsOps.lean', 'FnsShapeDispatch.lean', 'FnsLattice.lean', 'FnsSite.lean', 'FnsPacked.lean', 'FnsPotential.lean', 'FnsLineShape.lean', 'FnsMolShape.lean', 'FnsLJShape.lean', 'FnsDisc.lean', 'FnsLine.lean', 'FnsLJ.lean', 'FnsCell.lean', 'FnsWrap.lean', 'FnsAccept.lean', 'FnsBuild.lean', 'FnsLoopTail.lean', 'FnsInnerStep.lean', 'FnsBasis.lean'):
             files[n] = '/- GENERATED: rs2lean failed: %s -/\nnamespace PV.Gen\nend PV.Gen\n' % str(e).replace('-/', '- /')
     for name, text in files.items():
         path = os.path.join(outdir, name)
